@@ -319,9 +319,9 @@ Proof.
 Qed.
 
 (** the interpolation is a sum of squares: with P = A0 + A1 (gamma = 0 solution) and Q = A0 - A1
-    (gamma = pi/2 solution) it equals sum |cos g P + i sin g Q|^2, hence it is >= 0 for every angle *)
+    (gamma = pi/2 solution) it equals sum |cos g P - i sin g Q|^2, hence it is >= 0 for every angle *)
 Definition sos_term (c s : R) (r : amn_row (T:=R)) : R :=
-  cabs2 RO (cadd RO (cscale RO c (cadd RO (fst r) (snd r)))
+  cabs2 RO (csub RO (cscale RO c (cadd RO (fst r) (snd r)))
                     (cmul RO (0, 1) (cscale RO s (csub RO (fst r) (snd r))))).
 
 Lemma gamma_interp_add a b d a' b' d' c2 s2 :
@@ -330,17 +330,17 @@ Proof. ur. field. Qed.
 
 Lemma gamma_term_sos c s (r : amn_row (T:=R)) : c * c + s * s = 1 ->
   gamma_interp RO (cabs2 RO (cadd RO (fst r) (snd r))) (cabs2 RO (csub RO (fst r) (snd r)))
-               (cabs2 RO (csub RO (fst r) (cmul RO (0, 1) (snd r)))) (c * c - s * s) (2 * s * c) = sos_term c s r.
+               (cabs2 RO (cadd RO (fst r) (cmul RO (0, 1) (snd r)))) (c * c - s * s) (2 * s * c) = sos_term c s r.
 Proof.
   intros H. destruct r as [[x0 y0] [x1 y1]]. unfold sos_term. ur.
   set (p := (x0 + x1) * (x0 + x1) + (y0 + y1) * (y0 + y1)).
   set (q := (x0 - x1) * (x0 - x1) + (y0 - y1) * (y0 - y1)).
   replace ((p + q + (c * c - s * s) * (p - q) +
-            2 * s * c * ((1 + 1) * ((x0 - (0 * x1 - 1 * y1)) * (x0 - (0 * x1 - 1 * y1)) +
-                                    (y0 - (0 * y1 + 1 * x1)) * (y0 - (0 * y1 + 1 * x1))) - p - q)) * / (1 + 1))
+            2 * s * c * ((1 + 1) * ((x0 + (0 * x1 - 1 * y1)) * (x0 + (0 * x1 - 1 * y1)) +
+                                    (y0 + (0 * y1 + 1 * x1)) * (y0 + (0 * y1 + 1 * x1))) - p - q)) * / (1 + 1))
     with (((c * c + s * s) * (p + q) + (c * c - s * s) * (p - q) +
-            2 * s * c * ((1 + 1) * ((x0 - (0 * x1 - 1 * y1)) * (x0 - (0 * x1 - 1 * y1)) +
-                                    (y0 - (0 * y1 + 1 * x1)) * (y0 - (0 * y1 + 1 * x1))) - p - q)) * / (1 + 1))
+            2 * s * c * ((1 + 1) * ((x0 + (0 * x1 - 1 * y1)) * (x0 + (0 * x1 - 1 * y1)) +
+                                    (y0 + (0 * y1 + 1 * x1)) * (y0 + (0 * y1 + 1 * x1))) - p - q)) * / (1 + 1))
     by (rewrite H; ring).
   unfold p, q. field.
 Qed.
@@ -348,7 +348,7 @@ Qed.
 Lemma gamma_sos c s rows : c * c + s * s = 1 ->
   forall l, gamma_interp RO (sum_from RO (fun _ (r : amn_row) => cabs2 RO (cadd RO (fst r) (snd r))) l rows)
                          (sum_from RO (fun _ (r : amn_row) => cabs2 RO (csub RO (fst r) (snd r))) l rows)
-                         (sum_from RO (fun _ (r : amn_row) => cabs2 RO (csub RO (fst r) (cmul RO (0, 1) (snd r)))) l rows)
+                         (sum_from RO (fun _ (r : amn_row) => cabs2 RO (cadd RO (fst r) (cmul RO (0, 1) (snd r)))) l rows)
                          (c * c - s * s) (2 * s * c)
             = sum_from RO (fun _ r => sos_term c s r) l rows.
 Proof.
@@ -360,7 +360,7 @@ Qed.
 Lemma sos_sum_nonneg c s rows : forall l, 0 <= sum_from RO (fun _ r => sos_term c s r) l rows.
 Proof.
   induction rows as [|r rows IH]; intros l; cbn [sum_from zero add RO]; [lra|].
-  pose proof (IH (l + 1)%Z). unfold sos_term at 1. pose proof (cabs2_nonneg (cadd RO (cscale RO c (cadd RO (fst r) (snd r)))
+  pose proof (IH (l + 1)%Z). unfold sos_term at 1. pose proof (cabs2_nonneg (csub RO (cscale RO c (cadd RO (fst r) (snd r)))
                     (cmul RO (0, 1) (cscale RO s (csub RO (fst r) (snd r)))))). lra.
 Qed.
 
